@@ -197,9 +197,14 @@ ClaimsConflict(s, line) ==
 \* handle_submodule_log_line -> handle_additional_cases(SubmoduleLog): no pending-header handling here
 \* ("D19": the header still owed to the previous section is written first)
 HSubLog(s, k, line) ==
-  LET p == IF "D19" \in Fixes THEN Pending(Flush(s)) ELSE Flush(s)
+  LET p == IF "D19" \in Fixes /\ s.st = "DiffHeader" THEN Pending(Flush(s)) ELSE Flush(s)
       a == Emit([p EXCEPT !.st = "SubmoduleLog", !.hh = 0])
   IN Direct(a, Row("fileHdr", k, <<line.f, line.f, "submodule", 0, FALSE>>))
+\* handle_diff_header_misc_line, "Only in <dir>: <name>" (diff -r) -> handle_additional_cases(DiffHeader)
+HOnlyIn(s, k, line) ==
+  LET p == IF "D19" \in Fixes /\ s.st = "DiffHeader" THEN Pending(Flush(s)) ELSE Flush(s)
+      a == Emit([p EXCEPT !.st = "DiffHeader", !.hh = 0])
+  IN Direct(a, Row("fileHdr", k, <<line.f, line.f, "onlyin", 0, FALSE>>))
 \* handle_submodule_short_line
 HSubShort(s, k, line) ==
   IF line.c = "subm" THEN [s EXCEPT !.st = "SubmoduleShort", !.hh = 0]
@@ -210,7 +215,7 @@ HSubShort(s, k, line) ==
 Detect(s, line) ==
   IF s.src # "Unknown" THEN s
   ELSE IF line.c \in {"commit", "diff"} THEN [s EXCEPT !.src = "Git"]
-  ELSE IF line.c = "du" THEN [s EXCEPT !.src = "DiffU"]
+  ELSE IF line.c \in {"du", "onlyin"} THEN [s EXCEPT !.src = "DiffU"]
   ELSE IF line.c \in {"mmm", "minus3"} THEN [s EXCEPT !.src = "DiffU", !.m3 = 0]
   ELSE s
 
@@ -225,6 +230,7 @@ StepD(s, k, line) ==
     [] c = "hh" /\ s.st # "MergeConflict" -> HHunkHeader(s, k, line)
     [] c \in {"oldmode", "newmode"} -> HMode(s, k, line)
     [] c = "binary" -> HBinary(s, k, line)
+    [] c = "onlyin" /\ s.src = "DiffU" -> HOnlyIn(s, k, line)
     [] c = "sublog" -> HSubLog(s, k, line)
     [] (c = "subm" /\ s.st = "HunkHeader") \/ (c = "subp" /\ s.st = "SubmoduleShort") -> HSubShort(s, k, line)
     [] ClaimsConflict(s, line) -> HConflict(s, k, line)
